@@ -72,7 +72,13 @@ func (u *Unit) call(st *State, x *ast.CallExpr) *Val {
 	resT := u.typeOf(x)
 	var recv *Val
 	if recvExpr != nil && fn != nil {
-		recv = u.eval(st, recvExpr)
+		if k := kindOf(u.typeOf(recvExpr)); k == kAtomic || namedPath(types.Unalias(u.typeOf(recvExpr))) == "sync/atomic.Bool" {
+			u.inAtomic++
+			recv = u.eval(st, recvExpr)
+			u.inAtomic--
+		} else {
+			recv = u.eval(st, recvExpr)
+		}
 	}
 	if fn != nil {
 		name := fullName(fn)
